@@ -13,7 +13,8 @@ open Cjet Cjet.Json Cjet.Daemon
 inductive RouteStep (c : Nat) : List Peer → List Peer → Prop
   | nil : RouteStep c [] []
   | cons {p p' : Peer} {t t' : List Peer} :
-      (p'.conn = p.conn ∧ ∀ r ∈ p'.routes, r ∈ p.routes ∨ r.requester = c) → RouteStep c t t' →
+      (p'.conn = p.conn ∧ ∀ r ∈ p'.routes, r ∈ p.routes ∨ (r.requester = c ∧ r.owner = p.conn)) →
+      RouteStep c t t' →
       RouteStep c (p :: t) (p' :: t')
 
 namespace RouteStep
@@ -32,7 +33,7 @@ theorem trans {c : Nat} {a b d : List Peer} (h1 : RouteStep c a b) (h2 : RouteSt
       refine .cons ⟨hbd.1.trans hab.1, fun r hr => ?_⟩ (ih t2)
       rcases hbd.2 r hr with h | h
       · exact hab.2 r h
-      · exact Or.inr h
+      · exact Or.inr ⟨h.1, h.2.trans hab.1⟩
 
 theorem of_routesMap {c : Nat} {ps ps' : List Peer} (h : routesMap ps' = routesMap ps) : RouteStep c ps ps' := by
   induction ps generalizing ps' with
@@ -47,7 +48,8 @@ theorem of_routesMap {c : Nat} {ps ps' : List Peer} (h : routesMap ps' = routesM
       exact .cons ⟨h.1.1, fun r hr => Or.inl (h.1.2 ▸ hr)⟩ (ih h.2)
 
 theorem updatePeer {c : Nat} (ps : List Peer) (o : Nat) (f : Peer → Peer)
-    (hf : ∀ q, (f q).conn = q.conn ∧ ∀ r ∈ (f q).routes, r ∈ q.routes ∨ r.requester = c) :
+    (hf : ∀ q, (q.conn == o) = true →
+      (f q).conn = q.conn ∧ ∀ r ∈ (f q).routes, r ∈ q.routes ∨ (r.requester = c ∧ r.owner = q.conn)) :
     RouteStep c ps (Daemon.updatePeer ps o f) := by
   induction ps with
   | nil => exact .nil
@@ -55,7 +57,7 @@ theorem updatePeer {c : Nat} (ps : List Peer) (o : Nat) (f : Peer → Peer)
     simp only [Daemon.updatePeer, List.map_cons]
     refine .cons ?_ ih
     split
-    · exact hf p
+    · rename_i h; exact hf p h
     · exact ⟨rfl, fun r hr => Or.inl hr⟩
 
 theorem conns {c : Nat} {ps ps' : List Peer} (h : RouteStep c ps ps') : conns ps' = conns ps := by
@@ -67,7 +69,7 @@ theorem conns {c : Nat} {ps ps' : List Peer} (h : RouteStep c ps ps') : conns ps
 theorem findPeer {c : Nat} {ps ps' : List Peer} (h : RouteStep c ps ps') (d : Nat) :
     (Daemon.findPeer ps d = none ∧ Daemon.findPeer ps' d = none) ∨
     ∃ p p', Daemon.findPeer ps d = some p ∧ Daemon.findPeer ps' d = some p' ∧
-      ∀ r ∈ p'.routes, r ∈ p.routes ∨ r.requester = c := by
+      ∀ r ∈ p'.routes, r ∈ p.routes ∨ (r.requester = c ∧ r.owner = p.conn) := by
   induction h with
   | nil => exact Or.inl ⟨rfl, rfl⟩
   | @cons p p' t t' hab _ ih =>
@@ -131,19 +133,22 @@ theorem obsMethod_routed (d : Nat) (rid path : Bytes) (isState : Bool) (value : 
     obsMethod (.send d (routedMessage rid path isState value) b) = true :=
   isRoutedReq_hasMethod (routedMessage_isRoutedReq ..)
 
-theorem routeStep_append {c : Nat} (ps : List Peer) (o : Nat) (r : Route) (hr : r.requester = c) :
+theorem routeStep_append {c : Nat} (ps : List Peer) (o : Nat) (r : Route) (hr : r.requester = c)
+    (ho : r.owner = o) :
     RouteStep c ps (updatePeer ps o (fun q => { q with routes := q.routes ++ [r] })) := by
   apply RouteStep.updatePeer
-  intro q
+  intro q hq
   refine ⟨rfl, fun r' hr' => ?_⟩
   rcases List.mem_append.1 hr' with h | h
   · exact Or.inl h
-  · simp at h; subst h; exact Or.inr hr
+  · simp at h; subst h
+    have : q.conn = o := by simpa using hq
+    exact Or.inr ⟨hr, ho.trans this.symm⟩
 
 theorem routeStep_removeRoute {c : Nat} (ps : List Peer) (o : Nat) (rid : Bytes) :
     RouteStep c ps (removeRoute ps o rid) := by
   apply RouteStep.updatePeer
-  intro q
+  intro q _
   exact ⟨rfl, fun r' hr' => Or.inl (List.mem_filter.1 hr').1⟩
 
 theorem setOrCall_spec (cfg : Config) (x : Ctx) (p : Peer) (req : Json) (isState : Bool) :
@@ -157,10 +162,10 @@ theorem setOrCall_spec (cfg : Config) (x : Ctx) (p : Peer) (req : Json) (isState
     | exact MethodSpec.leaf [.timerDestroy _] rfl (by simp [obsMethod]) (by simp [obsAccepted])
         (FromReq.error ..) (RouteStep.refl ..)
     | (refine MethodSpec.leaf [.timerDestroy _, .send _ _ _, .timerArm _ _] rfl ?_ ?_ (FromReq.error ..)
-        ((routeStep_append _ _ _ (by rfl)).trans (routeStep_removeRoute ..))
+        ((routeStep_append _ _ _ (by rfl) (by rfl)).trans (routeStep_removeRoute ..))
        · simp [obsMethod]; exact isRoutedReq_hasMethod (routedMessage_isRoutedReq ..)
        · simp_all [obsAccepted])
-    | (refine ⟨⟨[.send _ _ _, .timerArm _ _], rfl, ?_, by simp, ?_⟩, Or.inl rfl, routeStep_append _ _ _ (by rfl)⟩
+    | (refine ⟨⟨[.send _ _ _, .timerArm _ _], rfl, ?_, by simp, ?_⟩, Or.inl rfl, routeStep_append _ _ _ (by rfl) (by rfl)⟩
        · simp [obsMethod]; exact isRoutedReq_hasMethod (routedMessage_isRoutedReq ..)
        · intro _ _
          refine ⟨_, List.mem_cons_self .., ?_⟩
